@@ -18,7 +18,9 @@ enum Op {
     Reopen,
 }
 
-const OPTS: &[&str] = &["zlib", "none", "bzip2", "zlib+enc", "none+fixkey"];
+// "huffman": a selector the compressor refuses (compression::compress answers Err for Huffman) — an addition that *fails after the lookup*;
+// the statement's "an operation that reports failure leaves the map unchanged" needs failing operations other than FileExists / not-found
+const OPTS: &[&str] = &["zlib", "none", "bzip2", "zlib+enc", "none+fixkey", "huffman"];
 const SIZES: &[usize] = &[0, 5, 700, 40000];
 
 fn norm(n: &str) -> String {
@@ -32,6 +34,7 @@ fn opt_to_options(opt: usize, replace: bool) -> AddFileOptions {
         1 => o.compression(CompressionMethod::None),
         2 => o.compression(CompressionMethod::BZip2),
         3 => o.compression(CompressionMethod::Zlib).encrypt(),
+        5 => o.compression(CompressionMethod::Huffman),
         _ => o.compression(CompressionMethod::None).fix_key(),
     }
 }
@@ -478,6 +481,7 @@ fn alphabet(n_names: usize, opts: &[usize], sizes: &[usize]) -> Vec<Op> {
             }
         }
         a.push(Op::Add { name, size: 1, opt: 0, replace: false });
+        a.push(Op::Add { name, size: 2, opt: 5, replace: true });
         a.push(Op::Remove { name });
         for to in 0..n_names {
             if to != name {
